@@ -83,9 +83,11 @@ class ListKey[T](DependencyKey[T, list[T]]):
     """
 
     empty_valid = True
+    # every read gets a list of its own: the caller may modify it
+    cache = False
 
     def combine(self, data: list[T]) -> list[T]:
-        return data
+        return list(data)
 
 
 class DependencyManager:
